@@ -3,3 +3,14 @@ open ZCV.Props.C17
 #print axioms C17_value_roundtrip_spec
 #print axioms C17_value_roundtrip
 #print axioms C17_define_refused
+#print axioms C17_include_refused
+#print axioms C17_roundtrip
+#print axioms C17_reload_same
+#print axioms C17_roundtrip_sorted
+#print axioms C17_print_stable
+#print axioms C17_reload_fixed_point
+#print axioms C17_loaded_is_wf
+#print axioms C17_accepted_text_roundtrip
+#print axioms C17_key_order_counterexample
+#print axioms C17_env_counterexample
+#print axioms C17_env_value_counterexample
